@@ -8,12 +8,25 @@ func verifAssert(b bool) {}
 
 // ---------- C18: RFC 1071 checksum ----------
 
+// specWord: the big-endian 16-bit word at index i
+func specWord(b string, i int) int {
+	if i < 0 || i+1 >= len(b) {
+		return 0
+	}
+	return int(b[i])*256 + int(b[i+1])
+}
+
 // specSum16: the sum of the big-endian 16-bit words of b from index i on (an odd trailing byte is the high byte of a
 // word whose low byte is zero)
 //@ contract specSum16
 //@   requires i >= 0 && i <= len(b)
 //@   decreases len(b) - i
 //@   ensures result >= 0 && result <= 65535*((len(b)-i+1)/2+1)
+//@   ensures[empty] i == len(b) ==> result == 0
+//@   ensures[two] i+2 == len(b) ==> result == specWord(b, i)
+//@   ensures[four] i+4 == len(b) ==> result == specWord(b, i) + specWord(b, i+2)
+//@   ensures[six] i+6 == len(b) ==> result == specWord(b, i) + specWord(b, i+2) + specWord(b, i+4)
+//@   ensures[eight] i+8 == len(b) ==> result == specWord(b, i) + specWord(b, i+2) + specWord(b, i+4) + specWord(b, i+6)
 func specSum16(b string, i int) int {
 	if i >= len(b) {
 		return 0
@@ -43,3 +56,103 @@ func specSum16(b string, i int) int {
 //@   requires len(buf) <= 65536
 //@   ensures[sum] int(result)%65535 == (int(initial)+specSum16(string(buf), 0))%65535
 //@   ensures[nonzero] int(initial)+specSum16(string(buf), 0) > 0 ==> result > 0
+
+// ---------- C18: the IPv4+UDP frame written by the raw connection ----------
+
+func specByte(n int) string { return string([]byte{byte(n)}) }
+func specZeros(n int) string {
+	if n <= 0 {
+		return ""
+	}
+	return string(make([]byte, n))
+}
+
+//@ contract specEnc16
+//@   ensures len(result) == 2
+func specEnc16(v int) string { return specByte(v/256) + specByte(v) }
+
+// specAddr4: the four address bytes copied into the header: the IPv4 form of ip, or zeros when ip has none
+func specAddr4(ip string) string {
+	if len(ip) == 4 {
+		return ip
+	}
+	if len(ip) == 16 && ip[0] == 0 && ip[1] == 0 && ip[2] == 0 && ip[3] == 0 && ip[4] == 0 && ip[5] == 0 && ip[6] == 0 && ip[7] == 0 && ip[8] == 0 && ip[9] == 0 && ip[10] == 255 && ip[11] == 255 {
+		return ip[12:16]
+	}
+	return specZeros(4)
+}
+
+//@ contract (ipv4).calculateChecksum
+//@   requires len(b) >= 20 && int(b[0])%16*4 <= len(b)
+//@   ensures[sum] int(result)%65535 == specSum16(string(b[:int(b[0])%16*4]), 0)%65535
+//@   ensures[nonzero] specSum16(string(b[:int(b[0])%16*4]), 0) > 0 ==> result > 0
+
+//@ contract (udp).calculateChecksum
+//@   requires len(b) >= 8
+//@   let S8 = specSum16(string(b[:8]), 0)
+//@   ensures[sum] int(result)%65535 == (int(partialchecksum) + int(totalLen) + S8)%65535
+//@   ensures[nonzero] int(partialchecksum) + int(totalLen) + S8 > 0 ==> result > 0
+
+// ipHdrOK(R, n, s, d): R starts with the IPv4 header of a UDP datagram with n payload bytes from s to d whose checksum verifies
+//@ define ipHdrOK(R, n, s, d) = len(R) >= 20 && R[0:2] == specByte(69) + specByte(0) && R[2:4] == specEnc16(28 + n) && R[4:10] == specZeros(4) + specByte(64) + specByte(17) && R[12:16] == specAddr4(s) && R[16:20] == specAddr4(d) && specSum16(R[0:20], 0)%65535 == 0
+// udpHdrOK(R, n, sp, dp, s, d, P): R[20:28] is the UDP header for ports sp, dp and payload P whose checksum verifies (RFC 768 pseudo header)
+//@ define udpHdrOK(R, n, sp, dp, ss, sd, sP) = len(R) >= 28 && R[20:22] == specEnc16(sp) && R[22:24] == specEnc16(dp) && R[24:26] == specEnc16(8 + n) && (ss + sd + 17 + (8 + n) + specSum16(R[20:28], 0) + sP)%65535 == 0
+//@ define hdrKeep(hdr, n) = lexOK(hdr) && exact(hdr) && exact(hdr.Buffer) && hdr.err == nil && fresh(hdr) && fresh(hdr.Buffer) && fresh(hdr.Buffer.data) && allocated(hdr.Buffer.data) && allocated(hdr) && allocated(hdr.Buffer) && hdr.Buffer.data != nil && cap(hdr.Buffer.data) == 28 + n
+
+//@ contract (udp).setChecksum
+//@   requires len(b) >= 8
+//@   modifies b
+//@   ensures specWord(string(b), 6) == int(checksum) && string(b)[0:6] == old(string(b)[0:6]) && string(b)[8:] == old(string(b)[8:])
+//@   ensures specWord(string(b), 0) == old(specWord(string(b), 0)) && specWord(string(b), 2) == old(specWord(string(b), 2)) && specWord(string(b), 4) == old(specWord(string(b), 4))
+
+//@ contract udp4pkt
+//@   requires dest != nil && src != nil && len(packet) <= 65507 && 0 <= src.Port && src.Port <= 65535 && 0 <= dest.Port && dest.Port <= 65535
+//@   let SP = specSum16(string(packet), 0)
+//@   let SS = specSum16(specAddr4(string(src.IP)), 0)
+//@   let SD = specSum16(specAddr4(string(dest.IP)), 0)
+//@   after `ipv4hdr.encode(ipv4fields)` use lemmaSum20(string(ipv4hdr))
+//@   after `ipv4hdr.encode(ipv4fields)` assert[ip-encoded] len(ipv4hdr) == 20 && int(ipv4hdr[0]) == 69 && specWord(string(ipv4hdr), 10) == 0
+//@   after `ipv4hdr.setChecksum(^ipv4hdr.calculateChecksum())` use lemmaSum20(string(ipv4hdr))
+//@   after `ipv4hdr.setChecksum(^ipv4hdr.calculateChecksum())` assert[ip-a] len(hdr.Buffer.data) == 20 && ref(ipv4hdr) == ref(hdr.Buffer.data) && off(ipv4hdr) == off(hdr.Buffer.data) && len(ipv4hdr) == 20
+//@   after `ipv4hdr.setChecksum(^ipv4hdr.calculateChecksum())` assert[ip-b] string(ipv4hdr)[0:2] == specByte(69) + specByte(0) && string(ipv4hdr)[2:4] == specEnc16(28 + len(packet))
+//@   after `ipv4hdr.setChecksum(^ipv4hdr.calculateChecksum())` assert[ip-c] string(ipv4hdr)[4:10] == specZeros(4) + specByte(64) + specByte(17)
+//@   after `ipv4hdr.setChecksum(^ipv4hdr.calculateChecksum())` assert[ip-d] string(ipv4hdr)[12:16] == specAddr4(string(src.IP)) && string(ipv4hdr)[16:20] == specAddr4(string(dest.IP))
+//@   after `ipv4hdr.setChecksum(^ipv4hdr.calculateChecksum())` assert[ip-e] specSum16(string(ipv4hdr), 0)%65535 == 0
+//@   after `ipv4hdr.setChecksum(^ipv4hdr.calculateChecksum())` assert[ip-f] string(hdr.Buffer.data) == string(ipv4hdr) && string(hdr.Buffer.data)[0:20] == string(hdr.Buffer.data)
+//@   after `ipv4hdr.setChecksum(^ipv4hdr.calculateChecksum())` cut[ip] hdrKeep(hdr, len(packet)) && len(hdr.Buffer.data) == 20 && ipHdrOK(string(hdr.Buffer.data), len(packet), string(src.IP), string(dest.IP)) && ref(ipv4hdr) == ref(hdr.Buffer.data) && off(ipv4hdr) == off(hdr.Buffer.data) && len(ipv4hdr) == 20 && allocated(ipv4fields) && fresh(ipv4fields) && ipv4fields != nil && len(ipv4fields.SrcAddr) <= 16 && len(ipv4fields.DstAddr) <= 16 && specSum16(string(ipv4fields.SrcAddr), 0) == SS && specSum16(string(ipv4fields.DstAddr), 0) == SD && specSum16(string(packet), 0) == SP && (ipv4fields.SrcAddr == nil || !fresh(ipv4fields.SrcAddr)) && (ipv4fields.DstAddr == nil || !fresh(ipv4fields.DstAddr))
+//@   after `udphdr.encode(&udpFields{` assert[udp-fields] len(udphdr) == 8 && string(udphdr)[0:2] == specEnc16(src.Port) && string(udphdr)[2:4] == specEnc16(dest.Port) && string(udphdr)[4:6] == specEnc16(8 + len(packet)) && specWord(string(udphdr), 6) == 0
+//@   after `udphdr.encode(&udpFields{` assert[udp-sum0] specSum16(string(udphdr), 0) == src.Port + dest.Port + (8 + len(packet))
+//@   after `xsum := checksum(packet, pseudoHeaderchecksum(` assert[xsum] int(xsum)%65535 == (SS + SD + 17 + SP)%65535 && xsum > 0
+//@   after `xsum := checksum(packet, pseudoHeaderchecksum(` assert[udp-sum0b] specSum16(string(udphdr[:8]), 0) == src.Port + dest.Port + (8 + len(packet)) && specWord(string(udphdr), 4) == 8 + len(packet)
+//@   after `udphdr.setChecksum(^udphdr.calculateChecksum(xsum, udphdr.length()))` assert[udp-w] specWord(string(udphdr), 0) == src.Port && specWord(string(udphdr), 2) == dest.Port && specWord(string(udphdr), 4) == 8 + len(packet)
+//@   after `udphdr.setChecksum(^udphdr.calculateChecksum(xsum, udphdr.length()))` assert[udp-c0] (SS + SD + 17 + (8 + len(packet)) + src.Port + dest.Port + (8 + len(packet)) + specWord(string(udphdr), 6) + SP)%65535 == 0
+//@   after `udphdr.setChecksum(^udphdr.calculateChecksum(xsum, udphdr.length()))` assert[udp-sum1] specSum16(string(udphdr), 0) == src.Port + dest.Port + (8 + len(packet)) + specWord(string(udphdr), 6)
+//@   after `udphdr.setChecksum(^udphdr.calculateChecksum(xsum, udphdr.length()))` assert[udp-a] len(hdr.Buffer.data) == 28 && ref(udphdr) == ref(hdr.Buffer.data) && off(udphdr) == off(hdr.Buffer.data)+20 && len(udphdr) == 8
+//@   after `udphdr.setChecksum(^udphdr.calculateChecksum(xsum, udphdr.length()))` assert[udp-b] string(udphdr)[0:2] == specEnc16(src.Port) && string(udphdr)[2:4] == specEnc16(dest.Port) && string(udphdr)[4:6] == specEnc16(8 + len(packet))
+//@   after `udphdr.setChecksum(^udphdr.calculateChecksum(xsum, udphdr.length()))` assert[udp-c] (SS + SD + 17 + (8 + len(packet)) + specSum16(string(udphdr), 0) + SP)%65535 == 0
+//@   after `udphdr.setChecksum(^udphdr.calculateChecksum(xsum, udphdr.length()))` assert[udp-d] string(hdr.Buffer.data)[20:28] == string(udphdr) && string(hdr.Buffer.data)[0:20] == string(ipv4hdr)
+//@   after `udphdr.setChecksum(^udphdr.calculateChecksum(xsum, udphdr.length()))` cut[udp] hdrKeep(hdr, len(packet)) && len(hdr.Buffer.data) == 28 && ipHdrOK(string(hdr.Buffer.data), len(packet), string(src.IP), string(dest.IP)) && udpHdrOK(string(hdr.Buffer.data), len(packet), src.Port, dest.Port, SS, SD, SP)
+//@   ensures[fresh] fresh(result)
+//@   ensures[length] len(result) == 28 + len(packet)
+//@   ensures[ip] ipHdrOK(string(result), len(packet), string(src.IP), string(dest.IP))
+//@   ensures[udp] udpHdrOK(string(result), len(packet), src.Port, dest.Port, specSum16(specAddr4(string(src.IP)), 0), specSum16(specAddr4(string(dest.IP)), 0), specSum16(string(packet), 0))
+//@   ensures[payload] string(result)[28:] == string(packet)
+
+// lemmaSum20: the word sum of a 20-byte IPv4 header
+//@ contract lemmaSum20
+//@   requires len(s) == 20
+//@   ensures specSum16(s, 0) == specWord(s, 0) + specWord(s, 2) + specWord(s, 4) + specWord(s, 6) + specWord(s, 8) + specWord(s, 10) + specWord(s, 12) + specWord(s, 14) + specWord(s, 16) + specWord(s, 18)
+func lemmaSum20(s string) {
+	verifAssert(specSum16(s, 12) == specWord(s, 12)+specWord(s, 14)+specWord(s, 16)+specWord(s, 18))
+	verifAssert(specSum16(s, 10) == specWord(s, 10)+specSum16(s, 12))
+	verifAssert(specSum16(s, 8) == specWord(s, 8)+specSum16(s, 10))
+	verifAssert(specSum16(s, 6) == specWord(s, 6)+specSum16(s, 8))
+	verifAssert(specSum16(s, 4) == specWord(s, 4)+specSum16(s, 6))
+	verifAssert(specSum16(s, 2) == specWord(s, 2)+specSum16(s, 4))
+	verifAssert(specSum16(s, 0) == specWord(s, 0)+specSum16(s, 2))
+}
+
+//@ contract pseudoHeaderchecksum
+//@   requires len(srcAddr) <= 16 && len(dstAddr) <= 16
+//@   ensures[sum] int(result)%65535 == (specSum16(string(srcAddr), 0) + specSum16(string(dstAddr), 0) + int(uint8(protocol)))%65535
+//@   ensures[nonzero] uint8(protocol) > 0 ==> result > 0
